@@ -268,6 +268,20 @@ func matrixCmd(args []string) error {
 					prim{p.gx, p.gy, p.bx, p.by, p.rx, p.ry, p.wx, p.wy})
 			}
 		}
+		// whites strictly inside the triangle but very close to an edge or a vertex (a column of the
+		// matrix is then legitimately tiny, not noise)
+		for i := 0; i < npub && i < len(pubs); i++ {
+			p := pubs[i]
+			if p.by <= 0 {
+				continue
+			}
+			for _, bc := range [][3]float64{{0.5, 0.5 - 3e-6, 3e-6}, {3e-6, 0.6, 0.4 - 3e-6}, {1 - 8e-6, 4e-6, 4e-6}, {0.3, 2e-5, 0.7 - 2e-5}} {
+				q := p
+				q.wx = bc[0]*p.rx + bc[1]*p.gx + bc[2]*p.bx
+				q.wy = bc[0]*p.ry + bc[1]*p.gy + bc[2]*p.by
+				seq = append(seq, q)
+			}
+		}
 		for pi, p := range seq {
 			r := ciexyy.Color{X: float32(p.rx), Y: float32(p.ry), YY: 1}
 			g := ciexyy.Color{X: float32(p.gx), Y: float32(p.gy), YY: 1}
@@ -533,12 +547,19 @@ func adaptEvents(outDir, tier string, rng *rand.Rand) error {
 	}
 	whites = append(whites, whitePt{"xyz", ciexyz.D50.X, ciexyz.D50.Y, ciexyz.D50.Z}, whitePt{"xyz", ciexyz.D65.X, ciexyz.D65.Y, ciexyz.D65.Z})
 	emitPair := func(a, b whitePt) {
+		defer func() {
+			if r := recover(); r != nil { // a constructor that refuses a physically valid white point is an observation
+				z := matRows(matrix.Matrix3{})
+				sink.put(dy{"kind": "adapt", "a": a.json(), "b": b.json(), "ab": z, "ba": z, "aa": z, "applied": obs3(0, 0, 0), "same_xyy": false,
+					"panic": true, "panic_msg": fmt.Sprint(r)})
+			}
+		}()
 		ab, ba, aa := a.adaptTo(b), b.adaptTo(a), a.adaptTo(a)
 		ap := ab.Apply(a.xyz())
 		// the xyY constructor must give the adaptation of the XYZ constructor on the converted whites
 		viaXYZ := ciexyz.AdaptBetweenXYZWhitePoints(a.xyz(), b.xyz())
 		sink.put(dy{"kind": "adapt", "a": a.json(), "b": b.json(), "ab": matRows(matrix.Matrix3(ab)), "ba": matRows(matrix.Matrix3(ba)),
-			"aa": matRows(matrix.Matrix3(aa)), "applied": obs3(ap.X, ap.Y, ap.Z), "same_xyy": matrix.Matrix3(viaXYZ) == matrix.Matrix3(ab)})
+			"aa": matRows(matrix.Matrix3(aa)), "applied": obs3(ap.X, ap.Y, ap.Z), "same_xyy": matrix.Matrix3(viaXYZ) == matrix.Matrix3(ab), "panic": false})
 	}
 	for _, a := range whites {
 		for _, b := range whites {
